@@ -37,4 +37,19 @@ CHECKS = {
         "level_note": "Trusts that rendering is deterministic for fixed inputs (checked: a fault point that never fires is reported). Templates whose fault-free render fails are skipped and counted (outside the property). The generator's template shapes bound what is explored; corpus templates are not yet included.",
         "assumptions": ["the Markdown converter returns the writer's error unchanged (as goldmark does)", "fault-free rendering of the generated set succeeds (otherwise the set is skipped and counted)"],
     },
+    "C12": {
+        "id": "C12", "pkg": "c12", "test": "TestC12", "level": "fault_enumeration",
+        "runs": {"quick": 96, "thorough": 6000},
+        "chunk": 32, "min_chunk": 16, "run_timeout_s": 30, "shrink_allowance_s": 600,
+        "selftest": {"quick": 6, "thorough": 24}, "selftest_procs": {"quick": 2, "thorough": 6},
+        "rule": "each run draws a skeleton program (functions, func-typed variables, closures, sub-package, defer of closures / functions / natives, recover, explicit panics of string/int/error values, native callbacks; one observable action per line) and runs it fault-free to record the h.Point call sequence (length W); then for EVERY k in 1..W the k-th Point call delivers Stop(E), Fatal(v) and a host panic (kind string/int/error chosen as a pure function of program and k). "
+                "evaluations = Scriggo executions; distinct_nontrivial = distinct (program, k, kind) triples whose fault fired",
+        "components": {"real": ["scriggo.Build", "Program.Run", "VM (call stack, defer, recover, panic chain)", "convertPanic", "PanicError accessors"],
+                       "stub": ["native package h (fault seam: Point delivers Stop/Fatal/panic; Rec, Call, Err, Yes record events)", "gc-compiled build of the same source with the same fault plan as reference for panics (go1.26.8, one process per (program, k))"]},
+        "engine": "faultsim", "design_ref": "DESIGN.md section 5, C12",
+        "technique": "deterministic simulation with fault injection: seeded skeleton programs, Stop/Fatal/host panic injected at every native call of a fault-free run, gc-compiled reference for panic semantics",
+        "level_text": "Per generated program every native-call fault point is enumerated with three fault kinds. Stop/Fatal oracles are self-referential (exact error/value identity; the event sequence is the fault-free sequence cut at the fault: nothing, deferred or not, ran afterwards). Panic oracles compare events, outcome, the whole panic chain with recovered flags, and the path/line of every chain element with the same program compiled by gc under the same fault plan.",
+        "level_note": "Trusts gc (go1.26.8) as the semantics of defer/panic/recover and the parsing of its crash header; panic values are strings, ints and errors.New values; panics inside native callbacks are always recovered inside the callback (Scriggo documents an unrecovered callback panic as fatal by design).",
+        "assumptions": ["gc's `panic: v [recovered]` header format (stable since Go 1.18)", "programs only use language features Scriggo supports (no methods)"],
+    },
 }
